@@ -34,7 +34,7 @@ ANCHORS = ['recursiveloader:ManifestRecursiveLoader.assert_directory_verifies',
            'cli:VerifyCommand.__call__']
 REQUIRED = ['recursiveloader:ManifestRecursiveLoader.assert_directory_verifies',
             'expect:accept', 'expect:reject', 'contract:path_starts_with',
-            'skipset_checked', 'cli_runs']
+            'skipset_checked', 'cli_runs', 'keepgoing_runs']
 ASSUMPTIONS = ['zones U1-U4, U10, U11 are unconstrained (see DESIGN.md 1.1)',
                'trees are small; permission-based unreadability is C06']
 
@@ -235,6 +235,30 @@ def judge(ctx, root, case):
         else:
             if not isinstance(exc, (GematoException, OSError)):
                 ctx.count('either-internal-error:' + name)
+    # ---- the same verdict in keep-going mode (handler returning False)
+    if expect != 'either':
+        from gemato.recursiveloader import ManifestRecursiveLoader
+        reports = []
+        try:
+            m2 = ManifestRecursiveLoader(os.path.join(root, 'Manifest'),
+                                         verify_openpgp=False)
+            kw = {'last_mtime': last_mtime} if last_mtime is not None else {}
+            r2 = m2.assert_directory_verifies(
+                sub, fail_handler=lambda e: reports.append(e.path) or False, **kw)
+            ctx.count('keepgoing_runs')
+            if expect == 'reject' and r2 is not False:
+                ctx.violation('keep-going-accepts-mismatch', 'with a handler returning '
+                              'False the result is %r although the tree does not match '
+                              '(%d report(s))' % (r2, len(reports)), case, detail)
+            elif expect == 'accept' and (r2 is not True or reports):
+                ctx.violation('keep-going-rejects-matching', 'keep-going verification '
+                              'of a matching tree: result %r, reports %r'
+                              % (r2, reports[:3]), case, detail)
+        except Exception as exc2:
+            if expect == 'accept':
+                ctx.violation('keep-going-raises-on-matching:' + adapt.exc_key(exc2),
+                              'keep-going verification of a matching tree raised %r'
+                              % (exc2,), case, detail)
     # ---- CLI must agree with the library (no last_mtime on the command line)
     cli_ok = last_mtime is None
     if cli_ok and sub:
